@@ -9,7 +9,7 @@ LEVELS = {
     "C09": ("PARTIAL. Proved: for every sequence of the registration operations (creation, deletion with __del__, replace_vertex) a vertex "
             "lists a mesh edge / cell exactly when it exists and is attached to it; for the resampling path: rebuilt edges stored under their own ids, "
             "joining existing vertices, cells non-empty without repeated vertex, and consecutive vertices of every resampled cycle joined by a rebuilt "
-            "edge under executable premises evaluated on every resampled mesh; the model is tied to vertex.py / edge.py / cell.py by "
+            "edge under executable premises evaluated on every resampled mesh; for the dump parser kept edges join kept vertices and cell cycles name kept vertices; the model is tied to vertex.py / edge.py / cell.py by "
             "exact comparison of ownEdges / ownCells after random operation sequences. Every parser, generate_mesh, join_two_vertices and "
             "Frame are exercised by the oracle with all five clauses evaluated on the implementation objects after every step", "5/C09",
             "Coq invariant over all operation sequences + exact correspondence + construction-path oracle (partial)"),
@@ -52,7 +52,7 @@ LEVELS = {
             "Coq theorems (equivariance) + transformed-pair oracle (partial)"),
     "C04": ("PARTIAL. Proved: every pressure equation has one +1 and one -1 at its interface's two cells, flipping the first cell's orientation negates the row; the turning estimate (np.gradient curvature, trapezoid rule) is zero on collinear points however spaced, invariant under translation and uniform scaling by any non-zero factor, and odd under reversal of the storage direction, so that the whole equation does not depend on the direction (over R); zero re-insertion puts 0 exactly at the dropped cells' positions and keeps the other entries in order; pressures reach the cells by dictionary position; a solution of the bordered normal equations is a zero-sum least-squares solution, and on a connected tissue (difference rows linking every cell to the first) the bordered system has no other solution. Tested by the oracle only: side of the centre of curvature, 3% accuracy on uniformly sampled arcs, that numpy's inverse solves the bordered system (against an independent solve; the theorem's premises are checked on the reported pressures), linearity in the tensions, 0.9 correlation (known finding D24)", "5/C04",
             "Coq theorems on a Gallina model + differential correspondence + analytic oracle (partial)"),
-    "C07": ("PARTIAL. Proved: injective renumbering of vertices and arbitrary renumbering of cells renames the interface list and changes nothing else (not even order); starting a cell's cycle at another vertex rotates the cell's interface list; storing a cell in the opposite rotational sense gives the same interfaces traversed backwards; for whole tissues any per-cell combination of shifts and flips leaves the set of interfaces unchanged up to direction (both inclusions); pressure rows negate under a flip of the first cell. Invariance of the equations, tensions per cell pair and pressures per physical cell is evaluated by the oracle with tolerances derived from the measured order sensitivity of the circle fit", "5/C07",
+    "C07": ("PARTIAL. Proved: injective renumbering of vertices and arbitrary renumbering of cells renames the interface list and changes nothing else (not even order); starting a cell's cycle at another vertex rotates the cell's interface list; storing a cell in the opposite rotational sense gives the same interfaces traversed backwards; for whole tissues any per-cell combination of shifts and flips leaves the set of interfaces unchanged up to direction (both inclusions); pressure rows negate under a flip of the first cell. Invariance of the equations, tensions per cell pair and pressures per physical cell is evaluated by the oracle with tolerances derived from the measured order sensitivity of the circle fit; the sum of the unknowns is invariant under relabelling, so a minimiser among the candidates of a given sum (zero-sum pressures, mean-one tensions) relabels into a minimiser of the relabelled system", "5/C07",
             "Coq theorem (renaming) + relabelling oracle (partial)"),
     "C10": ("state-machine model of the ForSys stores with symbolic result tokens; theorem for every history: frame t reports the "
             "token of the last matrix (re)build preceding its last solve, independent of everything else; stores keyed by frame; "
